@@ -102,7 +102,7 @@ func newEngine(q logqlengine.Querier) *logqlengine.Engine {
 func evalLog(data []mockq.Rec, c logqlengine.QuerierCapabilities, query string, limit int) logResult {
 	q := mockq.New(data)
 	q.Caps = c
-	return evalLogOn(newEngine(q), query, 0, 1<<40, limit)
+	return evalLogOn(newEngine(q), query, 0, 1<<50, limit)
 }
 
 // multiset of (ts, line)
